@@ -50,3 +50,35 @@ func TestVerifRaceOnce(t *testing.T) {
 	}
 	wg.Wait()
 }
+
+// F16 (hash memo): logs() writes tx.PrecompHash of shared cached transactions
+// under the block lock only, while a task that already holds the blocks reads
+// the memo through Tx.Hash() under cacheMut.
+func TestVerifRaceTxHash(t *testing.T) {
+	fn := newFakeNode(t)
+	c := New(fn.ts.URL)
+	f := &glf.Filter{UseHeaders: true, UseLogs: true}
+	blocks, err := c.Get(context.Background(), fn.ts.URL, f, chainStart, 2)
+	if err != nil {
+		t.Fatal(err)
+	}
+	var wg sync.WaitGroup
+	wg.Add(2)
+	go func() {
+		defer wg.Done()
+		for k := 0; k < 20; k++ {
+			c.Get(context.Background(), fn.ts.URL, f, chainStart, 2)
+		}
+	}()
+	go func() {
+		defer wg.Done()
+		for k := 0; k < 200; k++ {
+			for i := range blocks {
+				for j := range blocks[i].Txs {
+					blocks[i].Txs[j].Hash()
+				}
+			}
+		}
+	}()
+	wg.Wait()
+}
